@@ -121,11 +121,11 @@ C08 == (Done /\ NoWiden) =>
           /\ [j \in 1..Len(one.R.path) |-> <<Key(one.R.path[j]), one.R.path[j].lp>>]
                = [j \in 1..Len(R.path) |-> <<Key(R.path[j]), R.path[j].lp>>]
 C09 == WellFormed(M.lat)
-\* C19 at design level: with the logger at DEBUG the observables are those of the default level.
-\* (a) restricted to the scope in which the transcribed algorithm guarantees it: no non-emitting states
-\*     and no exact tie in any layer of the default-level lattice;
-\* (b) unrestricted: expected to FAIL (the counterexamples are the recorded findings F-debug-tie and
-\*     F-debug-ne-admission, which TLC reproduces on the specification).
+\* C19 at design level: with the logger at DEBUG (stopped candidates materialised, KeepStoppedUnderDebug, and
+\* replaced in an order-neutral way, OrderNeutralUnderDebug) the observables are those of the default level.
+\* History: before the two repairs of the non-emitting helpers and of upsert, TLC exhibited counterexamples to
+\* C19all (different probability through the admission test; a different choice among equally probable paths);
+\* C19scoped / C19noties are the weaker statements that held before the repairs and are kept as regression lemmas.
 ObsOf(mr) == <<mr.R.idx, [j \in 1..Len(mr.R.path) |-> <<Key(mr.R.path[j]), mr.R.path[j].lp>>]>>
 NoTies(lat) == \A c \in 1..Len(lat) : \A k \in 1..Len(lat[c]) :
                   LET L == Live(lat[c][k]) IN \A a, b \in 1..Len(L) : a # b => L[a].lp # L[b].lp
